@@ -217,7 +217,7 @@ func TestVerifPublic(t *testing.T) {
 		case 9:
 			state = "weekends-garbage"
 			os.MkdirAll(local, 0o777)
-			os.WriteFile(filepath.Join(local, "weekends"), rnd.Bytes(1+rnd.Intn(20)), 0o666)
+			os.WriteFile(filepath.Join(local, "weekends"), verifrt.Pick(rnd, [][]byte{rnd.Bytes(1 + rnd.Intn(20)), []byte("\n"), []byte("  \t\n"), {0}, []byte("7"), []byte("-")}), 0o666)
 		case 10:
 			state = "mode-is-dir"
 			os.MkdirAll(filepath.Join(tdir, "mode"), 0o777)
